@@ -65,7 +65,7 @@ func coqKey(pkg, name string) string { return "(" + coqStr(pkg) + "," + coqStr(n
 
 func coqFTy(t FTy) string {
 	switch t.Alt {
-	case "object", "oneof", "enum":
+	case "object", "oneof", "enum", "flatten":
 		return fmt.Sprintf("(TRef %s %s)", vh.CoqString(t.Alt), coqKey(t.Pkg, t.Name))
 	case "array":
 		return "(TArray " + coqFTy(*t.Item) + ")"
